@@ -18,8 +18,11 @@ package pool
 //@   ensures[C11,C19] random_pool: ret0 != nil && ordering != 1 && ordering != 2 ==> dyntype(ret0.limiter, "*limiter.BlockingLimiter") && as(ret0.limiter, "*limiter.BlockingLimiter").timeout == max(0, timeout)
 //@   ensures[C12,C13] queue_settings: ret0 != nil && (ordering == 1 || ordering == 2) ==> poolQueue(ret0.limiter).maxBacklogSize == uint64(ite(maxBacklog <= 0, 100, maxBacklog)) && poolQueue(ret0.limiter).maxBacklogTimeout == ite(max(0, timeout) == 0, 1000000000, max(0, timeout))
 //@   ensures[C19] gate_is_a_precise_strategy_at_the_pool_limit: ret0 != nil ==> ncalls("strategy.NewPreciseStrategy") == 1 && callarg("strategy.NewPreciseStrategy", 0, 0) == fixedLimit && callres("strategy.NewPreciseStrategy", 0, 0).limit == fixedLimit && callres("strategy.NewPreciseStrategy", 0, 0).inFlight == 0
+//@   ensures[C19] queue_wraps_the_gate: ret0 != nil && (ordering == 1 || ordering == 2) ==> dyntype(poolQueue(ret0.limiter).delegate, "*limiter.DefaultLimiter") && ref(poolDefault(poolQueue(ret0.limiter).delegate).strategy) == ref(callres("strategy.NewPreciseStrategy", 0, 0)) && ref(poolDefault(poolQueue(ret0.limiter).delegate).limit) == ref(callres("limit.NewFixedLimit", 0, 0))
+//@   ensures[C19] blocking_wraps_the_gate: ret0 != nil && ordering != 1 && ordering != 2 ==> dyntype(as(ret0.limiter, "*limiter.BlockingLimiter").delegate, "*limiter.DefaultLimiter") && ref(poolDefault(as(ret0.limiter, "*limiter.BlockingLimiter").delegate).strategy) == ref(callres("strategy.NewPreciseStrategy", 0, 0)) && ref(poolDefault(as(ret0.limiter, "*limiter.BlockingLimiter").delegate).limit) == ref(callres("limit.NewFixedLimit", 0, 0))
 //@   ensures[C19] estimate_is_fixed: ncalls("limit.NewFixedLimit") == 1 && callarg("limit.NewFixedLimit", 0, 1) == fixedLimit
 //@ define poolQueue(l core.Limiter) *limiter.QueueBlockingLimiter = as(l, "*limiter.QueueBlockingLimiter")
+//@ define poolDefault(l core.Limiter) *limiter.DefaultLimiter = as(l, "*limiter.DefaultLimiter")
 
 //@ func NewPool
 //@   ensures[C19] rejects_nil: delegateLimiter == nil ==> ret0 == nil && ret1 != nil
